@@ -1,5 +1,7 @@
 -- Root of the `ALV` library: every property file (and through them models, specs, lemmas).
+import ALV.Props.C01
 import ALV.Props.C02
+import ALV.Props.C03
 import ALV.Props.C04
 import ALV.Props.C07
 import ALV.Props.C08
